@@ -1,10 +1,11 @@
 CONSTANTS
   Ids = {3, 7}
-  Coords = {15, 204, 1000}
+  Coords = {0, 15, 204, 1000}
   Ends = {1009, 5000}
   MaxLabels = 2
 INIT Init
 NEXT Next
 INVARIANT Inv_C17
 INVARIANT Inv_NoAbort
+INVARIANT Inv_Trim
 CHECK_DEADLOCK FALSE
